@@ -90,32 +90,32 @@ package index
 //@   property C18
 //@   flag nosafety
 //@   atcall ParseInt@1 requires @decimal-64-bit $0 == s && $1 == 10 && $2 == 64
-//@   ensures @key-of-the-parsed-number err == nil ==> len(k) == 8 && be64(k) == (parsedInt(s) >= 0 ? parsedInt(s) : parsedInt(s) + 18446744073709551616)
+//@   ensures @key-of-the-parsed-number err == nil ==> len(k) == 8 && be64(k) == (old(parsedInt(s)) >= 0 ? old(parsedInt(s)) : old(parsedInt(s)) + 18446744073709551616)
 //@ func Int32String returns (k, err)
 //@   property C18
 //@   flag nosafety
 //@   atcall ParseInt@1 requires @decimal-32-bit $0 == s && $1 == 10 && $2 == 32
-//@   ensures @key-of-the-parsed-number err == nil ==> len(k) == 4 && be32(k) == (parsedInt(s) >= 0 ? parsedInt(s) : parsedInt(s) + 4294967296)
+//@   ensures @key-of-the-parsed-number err == nil ==> len(k) == 4 && be32(k) == (old(parsedInt(s)) >= 0 ? old(parsedInt(s)) : old(parsedInt(s)) + 4294967296)
 //@ func Int16String returns (k, err)
 //@   property C18
 //@   flag nosafety
 //@   atcall ParseInt@1 requires @decimal-16-bit $0 == s && $1 == 10 && $2 == 16
-//@   ensures @key-of-the-parsed-number err == nil ==> len(k) == 2 && be16(k) == (parsedInt(s) >= 0 ? parsedInt(s) : parsedInt(s) + 65536)
+//@   ensures @key-of-the-parsed-number err == nil ==> len(k) == 2 && be16(k) == (old(parsedInt(s)) >= 0 ? old(parsedInt(s)) : old(parsedInt(s)) + 65536)
 //@ func Uint64String returns (k, err)
 //@   property C18
 //@   flag nosafety
 //@   atcall ParseUint@1 requires @decimal-64-bit $0 == s && $1 == 10 && $2 == 64
-//@   ensures @key-of-the-parsed-number err == nil ==> len(k) == 8 && be64(k) == parsedInt(s)
+//@   ensures @key-of-the-parsed-number err == nil ==> len(k) == 8 && be64(k) == old(parsedInt(s))
 //@ func Uint32String returns (k, err)
 //@   property C18
 //@   flag nosafety
 //@   atcall ParseUint@1 requires @decimal-32-bit $0 == s && $1 == 10 && $2 == 32
-//@   ensures @key-of-the-parsed-number err == nil ==> len(k) == 4 && be32(k) == parsedInt(s)
+//@   ensures @key-of-the-parsed-number err == nil ==> len(k) == 4 && be32(k) == old(parsedInt(s))
 //@ func Uint16String returns (k, err)
 //@   property C18
 //@   flag nosafety
 //@   atcall ParseUint@1 requires @decimal-16-bit $0 == s && $1 == 10 && $2 == 16
-//@   ensures @key-of-the-parsed-number err == nil ==> len(k) == 2 && be16(k) == parsedInt(s)
+//@   ensures @key-of-the-parsed-number err == nil ==> len(k) == 2 && be16(k) == old(parsedInt(s))
 // Foreach visits the head first and then the tail keys, each as stored.
 //@ func KeySet.Foreach
 //@   property C04
